@@ -476,6 +476,14 @@ pub enum InK {
 pub const INKS: [InK; 6] = [InK::NwuSegwit, InK::NwuLegacy, InK::NwuSegwitAndWutxo, InK::WutxoOnly, InK::Nothing, InK::NwuSegwitAndWrongWutxo];
 
 pub fn psbt_with(kinds: &[InK], rich: bool) -> Psbt {
+    psbt_padded(kinds, rich, 0)
+}
+
+/// `pad` further outputs on the first input's previous transaction (a coin from a batch payout):
+/// 2300 of them make the PSBT larger than 64 KiB while the message stays below the 128 KiB limit
+pub const BIG_PAD: usize = 2300;
+
+pub fn psbt_padded(kinds: &[InK], rich: bool, pad: usize) -> Psbt {
     let segwit_script = |k: u8| {
         let mut s = vec![0x00, 0x14];
         s.extend([k; 20]);
@@ -491,12 +499,17 @@ pub fn psbt_with(kinds: &[InK], rich: bool) -> Psbt {
     let mut inputs = vec![];
     for (i, k) in kinds.iter().enumerate() {
         let spk = if *k == InK::NwuLegacy { legacy_script(i as u8 + 1) } else { segwit_script(i as u8 + 1) };
-        let prev = Transaction {
+        let mut prev = Transaction {
             version: Version::TWO,
             lock_time: LockTime::ZERO,
             input: vec![TxIn { previous_output: OutPoint { txid: Txid::from_byte_array([0x40 + i as u8; 32]), vout: 0 }, script_sig: ScriptBuf::new(), sequence: Sequence::MAX, witness: Witness::new() }],
             output: vec![TxOut { value: Amount::from_sat(9), script_pubkey: legacy_script(0x77) }, TxOut { value: Amount::from_sat(10_000 + i as u64), script_pubkey: spk }],
         };
+        if i == 0 {
+            for j in 0..pad {
+                prev.output.push(TxOut { value: Amount::from_sat(600 + j as u64), script_pubkey: segwit_script((j % 251) as u8) });
+            }
+        }
         inputs.push(TxIn { previous_output: OutPoint { txid: prev.compute_txid(), vout: 1 }, script_sig: ScriptBuf::new(), sequence: Sequence(0xffff_fffd), witness: Witness::new() });
         prevs.push(prev);
     }
@@ -536,7 +549,7 @@ pub fn psbt_with(kinds: &[InK], rich: bool) -> Psbt {
 
 impl Alph for WithSize<PsbtWrapper> {
     fn n() -> usize {
-        4
+        5
     }
     fn pick(i: usize, pos: usize) -> Self {
         let _ = pos;
@@ -544,7 +557,9 @@ impl Alph for WithSize<PsbtWrapper> {
             0 => psbt_with(&[InK::WutxoOnly], false),
             1 => psbt_with(&[InK::Nothing], false),
             2 => psbt_with(&[InK::NwuSegwit, InK::NwuLegacy], false),
-            _ => psbt_with(&[InK::WutxoOnly, InK::NwuSegwitAndWutxo], true),
+            3 => psbt_with(&[InK::WutxoOnly, InK::NwuSegwitAndWutxo], true),
+            // larger than 64 KiB
+            _ => psbt_padded(&[InK::NwuSegwit], false, BIG_PAD),
         };
         WithSize(PsbtWrapper { inner: p })
     }
@@ -573,13 +588,23 @@ pub fn streamed_variants() -> Vec<(Vec<InK>, bool)> {
     v
 }
 
+/// index (one past the ordinary variants) of the streamed PSBT that is larger than 64 KiB
+fn streamed_big() -> (Vec<InK>, bool) {
+    (vec![InK::NwuSegwit, InK::WutxoOnly], false)
+}
+
 impl Alph for WithSize<StreamedPSBT> {
     fn n() -> usize {
-        streamed_variants().len()
+        streamed_variants().len() + 1
     }
     fn pick(i: usize, pos: usize) -> Self {
         let _ = pos;
-        let (k, rich) = &streamed_variants()[i];
+        let vs = streamed_variants();
+        if i >= vs.len() {
+            let (k, rich) = streamed_big();
+            return WithSize(StreamedPSBT::new(psbt_padded(&k, rich, BIG_PAD)));
+        }
+        let (k, rich) = &vs[i];
         WithSize(StreamedPSBT::new(psbt_with(k, *rich)))
     }
 }
@@ -697,7 +722,7 @@ pub fn main(tier: Tier) -> i32 {
         let inconsistent_psbt = {
             let ar = (t.arity)();
             let sv = streamed_variants();
-            ar.iter().zip(sel.iter()).any(|(a, v)| *a == sv.len() && sv[*v].0.contains(&InK::NwuSegwitAndWrongWutxo))
+            ar.iter().zip(sel.iter()).any(|(a, v)| *a == <WithSize<StreamedPSBT> as Alph>::n() && *v < sv.len() && sv[*v].0.contains(&InK::NwuSegwitAndWrongWutxo))
         };
         if inconsistent_psbt && !fails.is_empty() && fails.iter().all(|f| f.contains("decode failed")) {
             refused_inconsistent += 1;
